@@ -29,7 +29,7 @@ NONDET_MODULES = {"random", "secrets", "time", "os", "datetime", "uuid", "socket
                   "getpass", "urllib", "http", "requests"}
 ALLOWED_IMPORT_ROOTS = {"hashlib", "hmac", "math", "typing", "abc", "functools", "importlib", "sys", "types",
                         "eth_typing", "eth_utils", "_hashlib", "py_ecc", "__future__", "typing_extensions",
-                        "collections", "itertools", "operator", "numbers", "enum", "dataclasses"}
+                        "collections", "itertools", "operator", "numbers", "enum", "dataclasses", "struct"}
 # from threading only the mutual-exclusion primitives (no effect on values)
 ALLOWED_FROM = {"threading": {"Lock", "RLock"}}
 NONDET_CALLS = {"id", "hash", "input", "open", "print", "exec", "eval", "compile", "__import__", "vars", "locals",
@@ -209,6 +209,8 @@ class FuncEffects:
                 base = self.origin_of_expr(e.value, seen)
                 return FRESH if base in (FRESH, IMMUT, PARAM, MODULE, SELF, SELF_INIT, CLASS, FRESHPART) and self._slice_copies(e) else base
             o = self.origin_of_expr(e.value, seen)
+            if isinstance(e, ast.Attribute) and o in (SELF, SELF_INIT) and self._is_class_level_container(e.attr):
+                return CLASS          # self.X where X is a mutable container bound in a class body: shared by all instances
             return FRESHPART if o == FRESH else o
         if isinstance(e, ast.Call):
             fn = e.func
@@ -250,6 +252,32 @@ class FuncEffects:
         if isinstance(e, ast.NamedExpr):
             return self.origin_of_expr(e.value, seen)
         return UNKNOWN
+
+    def _is_class_level_container(self, attr):
+        """attr is bound in the body of the method's class (or a base) to a dict/list/set display or constructor call and never
+        assigned on instances by this class's methods"""
+        cls = self.f.cls
+        if cls is None:
+            return False
+        try:
+            mro = cls.mro(self.repo)
+        except Exception:
+            mro = [cls]
+        for c in mro:
+            node = getattr(c, "attr_nodes", {}).get(attr)
+            if node is None:
+                continue
+            mutable = isinstance(node, (ast.Dict, ast.List, ast.Set, ast.DictComp, ast.ListComp, ast.SetComp)) or (
+                isinstance(node, ast.Call) and isinstance(node.func, ast.Name)
+                and node.func.id in ("dict", "list", "set", "OrderedDict", "defaultdict", "bytearray", "deque"))
+            if not mutable:
+                return False
+            for m in getattr(c, "methods", {}).values():
+                for n in ast.walk(m.node):
+                    if isinstance(n, ast.Attribute) and n.attr == attr and isinstance(n.ctx, ast.Store):
+                        return False      # rebound per instance
+            return True
+        return False
 
     @staticmethod
     def _slice_copies(e):
